@@ -225,6 +225,7 @@ class Session:
         self.aborts = {"apply": 0, "scan": 0, "missed": 0}
         self.track_ids = plan.get("prop") == "C15"
         self.tainted = set()  # rule objects whose evaluation the plan cancels (unspecified after)
+        self.io_faults = {"fired": 0, "missed": 0, "swallowed": 0}
         self.held = {}  # F14: list objects the caller passed to a builder call and still owns
 
     # -- argument decoding ---------------------------------------------------------
@@ -289,8 +290,12 @@ class Session:
                 return _pa.get_evaluable_architecture_for_module_objects(rm, mm, **kw)
             return _pa.get_evaluable_architecture(root, module, **kw)
 
+        fault = op.get("io_fault")
+        fired = 0
         try:
             try:
+                if fault:
+                    fsseam.arm_fault(fault["kind"], fault["at"], fault.get("err", "EIO"))
                 if op.get("abort_at"):
                     ev, lines = call_with_abort(request, op["abort_at"])
                     # the request finished before the chosen point: an ordinary scan
@@ -299,11 +304,22 @@ class Session:
                     ev = request()
             finally:
                 served = fsseam.end_scan()
+                if fault:
+                    fired, _ = fsseam.disarm_fault()
+                    self.io_faults["fired" if fired else "missed"] += 1
         except InjectedAbort as e:
             self.aborts["scan"] += 1
             return {"r": "ABORTED", "at": str(e)}
         except Exception as e:  # noqa: BLE001 - taxonomy: any Exception = no architecture
+            if fired:
+                # F15: the disk failed under this request; whatever it raised, it gave no architecture
+                return {"r": "IOFAULT", **_exc_info(e, self.scratch)}
             return {"r": "exc", **_exc_info(e, self.scratch), "served": served}
+        if fired:
+            # the error was swallowed and an architecture came back anyway: nothing is specified
+            # about it, so the session does not use it (counted)
+            self.io_faults["swallowed"] += 1
+            return {"r": "IOFAULT_SWALLOWED"}
         evs[op["ev"]] = ev
         if self.track_ids:
             ids.register(ev)
@@ -362,13 +378,22 @@ class Session:
             return {"r": "skip", "why": "no-evaluable"}
         ev = evs[op["ev"]]
         target = ns[op["obj"]]
+        fault = op.get("io_fault")
+        fired = 0
         try:
-            if op.get("abort_at"):
-                self.tainted.add(op["obj"])
-                ret, lines = call_with_abort(lambda: target.assert_applies(ev), op["abort_at"])
-                self.aborts["missed"] += 1
-            else:
-                ret = target.assert_applies(ev)
+            try:
+                if fault:
+                    fsseam.arm_fault(fault["kind"], fault["at"], fault.get("err", "EIO"))
+                if op.get("abort_at"):
+                    self.tainted.add(op["obj"])
+                    ret, lines = call_with_abort(lambda: target.assert_applies(ev), op["abort_at"])
+                    self.aborts["missed"] += 1
+                else:
+                    ret = target.assert_applies(ev)
+            finally:
+                if fault:
+                    fired, _ = fsseam.disarm_fault()
+                    self.io_faults["fired" if fired else "missed"] += 1
             res = {"r": "PASS"}
             if ret is not None:
                 res["ret"] = repr(ret)[:100]
@@ -380,6 +405,12 @@ class Session:
                    "cls": type(e).__name__}
         except Exception as e:  # noqa: BLE001
             res = {"r": "NOVERDICT", **_exc_info(e, self.scratch)}
+        if fired:
+            # F15: the disk failed under this evaluation (a diagram file could not be read); whatever
+            # came out is not a verdict on the architecture; later evaluations are judged as usual
+            if res["r"] in ("PASS", "FAIL"):
+                self.io_faults["swallowed"] += 1
+            res = {"r": "IOFAULT", "was": res["r"], "cls": res.get("cls")}
         after = self._snap(ev)
         res["ev_before"] = self.ev_snap[_real_id(ev)]
         res["ev_after"] = after
@@ -591,6 +622,7 @@ def execute(plan, scratch_base=None, run_tag="0"):
         "warnings": _warning_count[0],
         # not part of any digest: addresses are not reproducible across processes
         "probes": {"aborts": dict(sess.aborts), "evaluable_address_reused": ids.reused,
+                   "io_faults": dict(sess.io_faults),
                    # F14: constants of the caller that no longer hold what the caller put there
                    "caller_list_changed_by_library": sum(
                        1 for k, v in (plan.get("shared_lists") or {}).items()
